@@ -43,7 +43,14 @@ def run(c):
         "missing local part / domain, two '@'); the violation signature names the ForLookup branch (both keys computed / undecodable domain / does not split); "
         "byte-level inputs (op lines carry hex bytes, the model decodes them like Go's range): arbitrary byte strings and address-shaped ones with lone continuation bytes, Latin-1 letters, C0/C1/F5..FF, overlong forms, "
         "surrogates, beyond U+10FFFF, truncated sequences, mixed with ASCII and well-formed characters, through every function; monitor: IsASCII(s) <=> every BYTE of s < 0x80 for every string of the run, "
-        "whatever ToASCII returns without error is ASCII, ToUnicode keeps the local part; distinct = distinct op lines",
+        "whatever ToASCII returns without error is ASCII, ToUnicode keeps the local part; "
+        "crash-freedom as an outcome of EVERY call: each call of a function under test anywhere in the harness (correspondence ops, monitors, generators, the crash stream over "
+        "all 15 modelled functions + PRECIS / PRECISFold / FQDNDomain / SelectIDNA / dns.SelectIDNA / dns.FQDN) runs under recover, a panic is the violation C17/panic with the call "
+        "(function + hex input) as replay and the observation 'panic' (an outcome the model never has: C17_no_panic), the run continues; the library primitives of the table run under recover too; "
+        "size extremes through every function: labels of 62..300 octets with the ACE prefix in every letter case (xn-- XN-- Xn-- xN--), with near-miss prefixes and without one "
+        "(bodies: one letter, letters+digits, mixed case, digits only, a decodable punycode tail, non-ASCII, hyphens), alone / first / middle / last label, two long labels, names of 252..1000 octets made of short labels, "
+        "64..300 labels, prefix-only and tiny labels, local parts of 63..1000 octets (atoms, dotted, quoted with escapes, all backslashes, non-ASCII), each paired with an ASCII-case / prefix-case respelling "
+        "or a name that differs in its last octet only; ValidMailboxName, ValidDomain and dns.ToUnicode have correspondence ops of their own; distinct = distinct op lines",
         explanation="theorems for all code-point lists and all primitive implementations; model tied to the code by differential runs; laws of the Unicode primitives sampled",
         search=search,
     )
